@@ -284,7 +284,24 @@ fn graph_key(spec: &GraphSpec, class: &str) -> String {
     format!("C05:{}:{:016x}", class, hash_str(&serde_json::to_string(&s).unwrap()))
 }
 
-pub fn judge_graph(spec: &GraphSpec, keys: (u64, u64), threaded: Option<(u64, u64, SchedKind)>, res: &mut OneResult) {
+pub fn judge_graph(
+    spec: &GraphSpec,
+    keys: (u64, u64),
+    threaded: Option<(u64, u64, SchedKind)>,
+    variants: u64,
+    res: &mut OneResult,
+) {
+    judge_graph_in(spec, keys, threaded, variants, None, res)
+}
+
+fn judge_graph_in(
+    spec: &GraphSpec,
+    keys: (u64, u64),
+    threaded: Option<(u64, u64, SchedKind)>,
+    variants: u64,
+    parent_case: Option<&Value>,
+    res: &mut OneResult,
+) {
     let m = model(spec);
     res.add("graphs", 1);
     res.add(
@@ -304,7 +321,10 @@ pub fn judge_graph(spec: &GraphSpec, keys: (u64, u64), threaded: Option<(u64, u6
     if spec.edges.iter().any(|e| e.v.0 == e.v.1) {
         res.add("probe_self_loop", 1);
     }
-    let case = |extra: Value| json!({"kind": "graph", "spec": spec, "keys": [keys.0, keys.1], "extra": extra});
+    // a finding on a related graph needs the parent's history to replay
+    let own_case = json!({"kind": "graph", "spec": spec, "keys": [keys.0, keys.1], "variants": variants});
+    let case_v: Value = parent_case.cloned().unwrap_or(own_case);
+    let case = |_extra: Value| case_v.clone();
     let mut push = |res: &mut OneResult, class: &str, exp: String, obs: String| {
         res.found.push(Found {
             class: class.into(),
@@ -385,6 +405,53 @@ pub fn judge_graph(spec: &GraphSpec, keys: (u64, u64), threaded: Option<(u64, u6
     } else if !same(&a, &a2) {
         push(res, "build-not-deterministic", format!("{} (first build)", desc(&a)), format!("{} (same keys, later in process history)", desc(&a2)));
     }
+    // history: building RELATED graphs in between (same edge list with other
+    // externals / mass flags / weights) must not change what this graph yields,
+    // and each related graph must itself get the model's verdict
+    if variants > 0 {
+        let mut vr = SplitMix::new(mix(keys.0, 0x7a71));
+        for _ in 0..variants {
+            let mut v = spec.clone();
+            match vr.below(4) {
+                0 => {
+                    // other externals over the same vertices
+                    let mut verts: Vec<u8> = v.edges.iter().flat_map(|e| [e.v.0, e.v.1]).collect();
+                    verts.sort_unstable();
+                    verts.dedup();
+                    v.externals = verts.into_iter().filter(|_| vr.chance(1, 2)).collect();
+                }
+                1 => {
+                    let i = vr.below(v.edges.len() as u64) as usize;
+                    v.edges[i].massive = !v.edges[i].massive;
+                }
+                2 => {
+                    let i = vr.below(v.edges.len() as u64) as usize;
+                    let w = f64::from_bits(v.edges[i].w) * *vr.pick(&[0.5, 0.75, 1.5, 2.0]);
+                    v.edges[i].w = w.clamp(0.05, 20.0).to_bits();
+                }
+                _ => {
+                    if !v.externals.is_empty() {
+                        let i = vr.below(v.externals.len() as u64) as usize;
+                        v.externals.remove(i);
+                    }
+                }
+            }
+            if v != *spec {
+                res.add("related_graphs_built_in_between", 1);
+                judge_graph_in(&v, (vr.next(), vr.next()), None, 0, Some(&case_v), res);
+            }
+        }
+        let (a3, _) = build_once(spec, keys.0);
+        res.add("builds", 1);
+        if !same(&a, &a3) {
+            push(
+                res,
+                "build-not-deterministic",
+                format!("{} (first build)", desc(&a)),
+                format!("{} (same graph, same keys, after related graphs were built in this process)", desc(&a3)),
+            );
+        }
+    }
     // concurrent builders interleaving at hash-key draws
     if let (B::Ok(_), Some((sseed, every, kind))) = (&a, threaded) {
         let mut rng = SplitMix::new(sseed);
@@ -438,7 +505,7 @@ impl Property for C05 {
         if thorough {
             400_000
         } else {
-            160_000
+            100_000
         }
     }
     fn xproc_runs(&self, thorough: bool) -> u64 {
@@ -459,7 +526,8 @@ impl Property for C05 {
             None
         };
         let mut res = OneResult::default();
-        judge_graph(&spec, keys, threaded, &mut res);
+        let variants = if rng.chance(1, 2) { rng.range(1, 3) } else { 0 };
+        judge_graph(&spec, keys, threaded, variants, &mut res);
         ctx::uninstall();
         if index < 64 {
             let m = model(&spec);
@@ -494,7 +562,7 @@ impl Property for C05 {
         ctx::install(usize::MAX, None, PreemptPlan::default());
         let spec: GraphSpec = serde_json::from_value(case["spec"].clone()).expect("bad graph spec");
         let keys = (case["keys"][0].as_u64().unwrap_or(1), case["keys"][1].as_u64().unwrap_or(2));
-        judge_graph(&spec, keys, None, &mut res);
+        judge_graph(&spec, keys, None, case["variants"].as_u64().unwrap_or(0), &mut res);
         ctx::uninstall();
         res
     }
@@ -507,11 +575,12 @@ impl Property for C05 {
             Err(_) => return found.clone(),
         };
         let keys = (found.case["keys"][0].as_u64().unwrap_or(1), found.case["keys"][1].as_u64().unwrap_or(2));
+        let variants = found.case["variants"].as_u64().unwrap_or(0);
         let class = found.class.clone();
         ctx::install(usize::MAX, None, PreemptPlan::default());
         let fails = |s: &GraphSpec| -> Option<Found> {
             let mut r = OneResult::default();
-            judge_graph(s, keys, None, &mut r);
+            judge_graph(s, keys, None, variants, &mut r);
             r.found.into_iter().find(|f| f.class == class)
         };
         let mut best = match fails(&spec) {
